@@ -14,6 +14,10 @@ import (
 type State struct {
 	cells map[*ssa.Alloc]Term // non-escaping locals (registers)
 	comps map[string]Term     // heap and ghost components; a missing key means "value at function entry"
+	// a symbolic state stands for "any state": every component read is a bound variable of the
+	// definitional axiom of an opaque spec function, and is recorded
+	symbolic bool
+	rec      map[string]string
 }
 
 func (s *State) clone() *State {
@@ -46,6 +50,8 @@ type LV struct {
 	comp string
 	ref  Term
 	idx  Term
+	off  Term // lvElem through a slice: offset and relative index (idx = off + rel)
+	rel  Term
 	path []pstep
 	typ  types.Type // type of the content at the end of the path
 	base types.Type // type of the content at the base location
@@ -93,6 +99,7 @@ type VC struct {
 	obls  []*Obligation
 	reachable map[[2]int]bool // DAG reachability between blocks (back edges removed)
 	safeSeen  map[string][]*ssa.BasicBlock
+	nonNil    map[Term]bool // references known to be non-nil (fresh allocations)
 	n     int
 
 	compSort map[string]string
@@ -127,6 +134,10 @@ type VC struct {
 	rets      int
 	retReach  []Term
 	failed    error
+	carved    bool // known-finding carve-outs are assumed as extra preconditions
+	ghostLocals map[string]*SType
+	opq         map[*Decl]*opaqueInfo
+	opqWork     []*opaqueInfo
 }
 
 type rangeInfo struct {
@@ -254,7 +265,7 @@ func (vc *VC) oblige1(class, label string, goal Term, pos token.Pos) *Obligation
 }
 
 func (vc *VC) safe(kind string, goal Term, pos token.Pos) {
-	if goal == "true" {
+	if goal == "true" || (kind == "nil" && vc.nonNil[goal]) {
 		return
 	}
 	// the same check already made in a dominating block need not be repeated
@@ -276,6 +287,10 @@ func (vc *VC) safe(kind string, goal Term, pos token.Pos) {
 // ---- components ---------------------------------------------------------------------------------
 
 func (vc *VC) comp(st *State, name, sort string) Term {
+	if st.symbolic {
+		st.rec[name] = sort
+		return sym("h." + name)
+	}
 	if t, ok := st.comps[name]; ok {
 		return t
 	}
@@ -486,6 +501,12 @@ func (vc *VC) zeroInit(st *State, t types.Type, ref Term) {
 
 func (vc *VC) alloc(st *State) Term {
 	r := vc.define("ref", sInt, vc.next(st))
+	if vc.nonNil == nil {
+		vc.nonNil = map[Term]bool{}
+		vc.assumeGlobal(app(">=", vc.compEntry(compNext, sInt), "1"))
+	}
+	vc.nonNil[r] = true
+	vc.nonNil["(not (= "+r+" 0))"] = true
 	vc.setComp(st, compNext, sInt, app("+", r, "1"))
 	return r
 }
@@ -617,6 +638,8 @@ func (vc *VC) resolveType(te *TypeExpr, pkg *types.Package, tenv map[string]type
 				}
 			case "any":
 				return goT(types.Universe.Lookup("any").Type())
+			case "real":
+				return &SType{Kind: "real", Name: "Real"}
 			case "error":
 				return goT(types.Universe.Lookup("error").Type())
 			}
